@@ -61,8 +61,13 @@ def gen_values(rng):
     return {"kind": "range", "v": n}
 
 
-def decode_values(spec):
+def decode_values(spec, oneshot=True):
     k, v = spec["kind"], spec["v"]
+    if k in ("iter", "gen"):
+        # a one-shot iterable (iterator / generator expression): legal as long as the grid is used once
+        if not oneshot:
+            return list(v)
+        return iter(list(v)) if k == "iter" else (x for x in list(v))
     if k in ("scalar", "str"):
         return v
     if k == "list":
